@@ -247,6 +247,14 @@ def handle (j : Json) : R Json := do
   let some al := al | return Json.mkObj [("id", (← field j "id")), ("agree", Json.bool false), ("spec_impl", Json.bool true),
       ("model", Json.mkObj [("why", "call traces differ"), ("trace", jStrs (o0.trace.map kind))]), ("nontrivial", Json.bool false)]
   let some step := al[k - 1]? | throw "k out of range"
+  -- the persistent cache is optional: a failing read of its reference is swallowed by the cache
+  -- loader and the operation goes on without a cache.  Such a fault must leave no trace at all: the
+  -- run reports what the uninterrupted run reports and ends in the same state.
+  if mode == "fault" && trace0[k - 1]? == some "GetReference(refs/local/gittuf/persistent-cache)" then
+    let same := result == result0 && cAfter == cAfter0
+    return Json.mkObj [("id", (← field j "id")), ("agree", Json.bool same), ("spec_impl", Json.bool same),
+      ("class", s!"{mode}:optional-read"),
+      ("model", Json.mkObj [("why", "fault on the optional cache reference is ignored")]), ("nontrivial", Json.bool true)]
   -- 2. the faulted / crashed run, judged on canonical names
   let canonPred (p : Pred) : Obs × Obs × Obs × Obs :=
     match canonAll known [obsOf w w.store, obsOf w o0.store, p.after, p.afterRetry] with
